@@ -32,7 +32,7 @@ from ..exc import ExcModel, handler_reraises
 from ..loader import AnalysisError, ClassInfo, FunctionInfo, walk_scope
 from ..locks import LockSets, attr_accesses, callers_hold
 from ..resolve import last_attr
-from ..util import calls, mini_eval, names_in, one, try_protecting, txt
+from ..util import calls, names_in, one, try_protecting, txt
 from ._g7_helpers import NullFlow, dataclass_fields
 
 META = {
@@ -189,7 +189,6 @@ def run(ctx: Ctx) -> None:
     reg = ctx.repo.cls(REG)
     mw = ctx.repo.cls(MW)
     lockf, fields = _entry_fields(ctx)
-    is_entry_lock = lambda t: t.endswith("." + lockf)  # noqa: E731  (alias-aware variants are built per function)
     hook = ctx.fn(f"{REG}.{HOOK}")
     methods = [m for n, m in reg.methods.items() if n != "__init__"]
     ctx.touch(*methods)
